@@ -1,5 +1,6 @@
 (* TranslatedEq.v — the definitions regenerated from /repo's current source by tools/translate.py
    (gen/Translated.v) are equal to the hand-written model.  When the Python changes, these proofs break. *)
+From SL Require Import QueueSources.
 From SL Require Import Tac.
 From SL Require Import PyInt KeyPattern LoopSem ScreenSem Prompt Paging ScreenOut gen.Translated.
 From RecordUpdate Require Import RecordUpdate.
@@ -382,6 +383,38 @@ Lemma eq_enqueue_eq q sg : t_eq_enqueue q sg = t_ok (q_put q sg).
 Proof. reflexivity. Qed.
 Lemma eq_contains_source_eq q src : t_eq_contains_source q src = t_ok (q_contains_source q src).
 Proof. reflexivity. Qed.
+Lemma eq_remove_source_eq q o : t_eq_remove_source q o = q_remove_source q o.
+Proof. unfold t_eq_remove_source, q_remove_source, t_set_mem. destruct q as [e c s]. cbn. destruct (existsb (Nat.eqb o) s); reflexivity. Qed.
+Lemma eq_remove_source_keeps_pending q o q' :
+  q_remove_source q o = Some q' -> eq_entries q' = eq_entries q /\ eq_counter q' = eq_counter q.
+Proof.
+  unfold q_remove_source. destruct q as [e c s]. cbn. destruct (existsb (Nat.eqb o) s); intros H; inversion H; subst; cbn; split; reflexivity.
+Qed.
+Lemma filter_out_not_mem o s : existsb (Nat.eqb o) (filter (fun x => negb (Nat.eqb o x)) s) = false.
+Proof.
+  induction s as [|a s IH]; cbn; [reflexivity|].
+  destruct (Nat.eqb o a) eqn:E; cbn; [exact IH|]. rewrite E. cbn. exact IH.
+Qed.
+Lemma filter_out_other_mem o x s : x <> o ->
+  existsb (Nat.eqb x) (filter (fun y => negb (Nat.eqb o y)) s) = existsb (Nat.eqb x) s.
+Proof.
+  intros Hx. induction s as [|a s IH]; cbn; [reflexivity|].
+  destruct (Nat.eqb o a) eqn:E; cbn.
+  - apply Nat.eqb_eq in E. subst a. destruct (Nat.eqb x o) eqn:E2; [apply Nat.eqb_eq in E2; contradiction|]. cbn. exact IH.
+  - rewrite IH. reflexivity.
+Qed.
+Lemma eq_remove_source_removes q o q' :
+  q_remove_source q o = Some q' ->
+  q_contains_source q' (Some o) = false /\
+  forall x, x <> o -> q_contains_source q' (Some x) = q_contains_source q (Some x).
+Proof.
+  unfold q_remove_source, q_contains_source. destruct q as [e c s]. cbn.
+  destruct (existsb (Nat.eqb o) s); intros H; inversion H; subst; cbn. split.
+  - apply filter_out_not_mem.
+  - intros x Hx. apply filter_out_other_mem. exact Hx.
+Qed.
+Lemma eq_remove_source_refuses q o : q_contains_source q (Some o) = false -> q_remove_source q o = None.
+Proof. unfold q_remove_source, q_contains_source. intros H. rewrite H. reflexivity. Qed.
 Lemma eq_add_source_eq q o : t_eq_add_source q o = t_ok (q_add_source q o).
 Proof. unfold t_eq_add_source, q_add_source, t_set_add, t_set_mem. destruct q as [e c s]. cbn. destruct (existsb (Nat.eqb o) s); reflexivity. Qed.
 Lemma eq_enqueue_if_source_belongs_eq q sg src :
